@@ -28,7 +28,11 @@ StoredWhy(deps) == UNION {Violated(deps[i]) : i \in DOMAIN deps}
 
 \* an accepted create-deployment touches the deployment, market, escrow and bank stores and nothing else
 DigestConf(ln) ==
-    IF ln.accepted
+    IF ln.accepted /\ ln.msg.kind = "update"
+    THEN \* an accepted update rewrites the deployment record and nothing else
+         /\ \A k \in {"rest", "market", "escrow", "bank"} : ln.after.digest[k] = ln.before.digest[k]
+         /\ [ln.after EXCEPT !.digest = 0, !.deployments = 0] = [ln.before EXCEPT !.digest = 0, !.deployments = 0]
+    ELSE IF ln.accepted
     THEN /\ ln.after.digest.rest = ln.before.digest.rest
          /\ \A k \in {"deployment", "market", "escrow", "bank"} : ln.after.digest[k] # ln.before.digest[k]
          /\ ln.after.balother = ln.before.balother
@@ -40,17 +44,17 @@ Judge(ln) ==
     LET res == IF ln.accepted THEN "ok" ELSE "rejected"
         s   == AbsState(ln.before)
         t   == AbsState(ln.after)
-        v   == Verdict(ln.msg)
+        v   == IF ln.msg.kind = "create" THEN Verdict(ln.msg) ELSE UVerdict(ln.msg, s)
     IN  [id       |-> ln.id,
          accepted |-> ln.accepted,
          p1       |-> P_AcceptedOnlyWithin(res, ln.msg),
          p2       |-> (res # "ok" => ln.after = ln.before) /\ P_RejectedNoEffect(res, s, t),
          p3       |-> P_StoredWithin(ln.after.deployments),
-         why      |-> IF ln.accepted THEN Violated(ln.msg) ELSE {},
+         why      |-> IF ln.accepted /\ ln.msg.kind = "create" THEN Violated(ln.msg) ELSE {},
          swhy     |-> StoredWhy(ln.after.deployments),
-         within   |-> WithinLimits(ln.msg),
+         within   |-> ln.msg.kind = "create" => WithinLimits(ln.msg),
          expect   |-> v,
-         conf     |-> SubmitRel(ln.msg, ln.dseq, s, v, t) /\ (ln.accepted <=> v = "ok") /\ DigestConf(ln),
+         conf     |-> StepRel(ln.msg, ln.dseq, s, v, t) /\ (ln.accepted <=> v = "ok") /\ DigestConf(ln),
          reasonok |-> ln.reason = v]
 
 TInit == /\ l = 0
